@@ -166,6 +166,17 @@ func (fr *Frame) lookupLocal(name string, at *ssa.BasicBlock, st *State) (SVal, 
 				return SVal{V: fr.val(phi), Ty: phi.Type()}, true
 			}
 		}
+		// range-over-map loops have no index phi: the ghost iteration counter plays its part
+		if name == "rangeindex" {
+			for _, in := range at.Instrs {
+				if nx, ok := in.(*ssa.Next); ok && !nx.IsString {
+					if rg, ok := nx.Iter.(*ssa.Range); ok && isMap(rg.X.Type()) {
+						k := fr.fx.eng.iterKey(rg)
+						return sv(fr.fx.heapGet(st, k, SInt), types.Typ[types.Int]), true
+					}
+				}
+			}
+		}
 		// deepest dominating definition
 		var best ssa.Value
 		bestAddr := false
@@ -293,7 +304,22 @@ func (fr *Frame) lookupLocal(name string, at *ssa.BasicBlock, st *State) (SVal, 
 	return SVal{}, false
 }
 
+// eval evaluates a specification expression; slice-typed results carry the array-typing fact (see wellFormed).
 func (e *specEnv) eval(x ast.Expr) (SVal, error) {
+	v, err := e.eval0(x)
+	if err == nil && v.Ty != nil && v.V.T.Sort == SSlice && e.st != nil && e.fx.ctx.quant == 0 && !strings.Contains(v.V.T.S, "|q!") {
+		if _, ok := v.Ty.Underlying().(*types.Slice); ok {
+			switch x.(type) {
+			case *ast.SelectorExpr, *ast.IndexExpr:
+				// a slice read from the heap of e.st is well-formed there (closed heap, element typing)
+				e.fx.wellFormed(e.st, v.V.T, v.Ty)
+			}
+		}
+	}
+	return v, err
+}
+
+func (e *specEnv) eval0(x ast.Expr) (SVal, error) {
 	fx := e.fx
 	switch n := x.(type) {
 	case *ast.ParenExpr:
@@ -968,6 +994,29 @@ func (e *specEnv) call(n *ast.CallExpr) (SVal, error) {
 			t = IfVal(t)
 		}
 		return sv(And(Ge(t, Int(0)), Le(t, e.st.wm)), boolT), nil
+	case "iterkey":
+		// iterkey(m, n): the key handed out by the n-th step of a range over map m (an injective enumeration)
+		if err := need(2); err != nil {
+			return SVal{}, err
+		}
+		mv, err := e.eval(n.Args[0])
+		if err != nil {
+			return SVal{}, err
+		}
+		if mv.Ty == nil || !isMap(mv.Ty) {
+			return SVal{}, fmt.Errorf("iterkey expects a map")
+		}
+		mt := mv.Ty.Underlying().(*types.Map)
+		_, _, ks, _ := mapKeys(mt)
+		idx, err := argT(1)
+		if err != nil {
+			return SVal{}, err
+		}
+		f := fx.ctx.DeclFun("iterkey."+string(ks), []Sort{SInt, SInt}, ks)
+		inv := fx.ctx.DeclFun("iterkeyinv."+string(ks), []Sort{SInt, ks}, SInt)
+		fx.ctx.RawOnce("iterkey-inj."+string(ks), fmt.Sprintf("(assert (forall ((m Int) (n Int)) (! (= (%s m (%s m n)) n) :pattern ((%s m n)))))", inv, f, f))
+		m := fx.materialize(mv.V, mv.Ty)
+		return sv(Term{"(" + f + " " + m.S + " " + idx.S + ")", ks}, mt.Key()), nil
 	case "hasPrefix", "hasSuffix", "contains":
 		if err := need(2); err != nil {
 			return SVal{}, err
